@@ -230,7 +230,7 @@ def reproduced(cex, rr):
     if cex["kind"] == "assert" and cex["label"].startswith(("cut-", "asm-pre", "no-overflow", "dispatch:", "table-contract")):
         return bool(rr.get("fails")) or rr.get("panic") is not None
     if cex["kind"] == "assert":
-        return cex["label"] in (rr.get("fails") or []) or rr.get("panic") is not None
+        return any(cex["label"] in f for f in (rr.get("fails") or [])) or rr.get("panic") is not None
     return False
 
 
@@ -287,7 +287,10 @@ def run(pid, spec, a, seed, scratch, t0):
     if a.replay:
         cex = json.load(open(a.replay))
         job = next(j for j in spec["jobs"] if j["harness"] == cex["harness"])
-        rr = native_replay(job, os.path.abspath(a.replay), scratch)
+        if job.get("replay") == "c20":
+            rr = props.replay_c20(cex, scratch, REPO, GOENV)
+        else:
+            rr = native_replay(job, os.path.abspath(a.replay), scratch)
         print(json.dumps(rr))
         if reproduced(cex, rr) or (job.get("kind") == "asmsym" and (rr.get("fails") or rr.get("panic"))):
             print("VIOLATION property=%s replay=%s" % (pid, a.replay))
@@ -396,7 +399,10 @@ def run(pid, spec, a, seed, scratch, t0):
                 seen.add(key)
                 cpath = os.path.join(VERIF, "replays", pid, "%s-%d.json" % (h, len(seen)))
                 json.dump(dict(harness=h, label=c["label"], kind=c["kind"], model=c["model"], decisions=c["decisions"]), open(cpath, "w"), indent=1)
-                rr = native_replay(job, cpath, scratch)
+                if job.get("replay") == "c20":
+                    rr = props.replay_c20(dict(model=c["model"], label=c["label"]), scratch, REPO, GOENV)
+                else:
+                    rr = native_replay(job, cpath, scratch)
                 replays += 1
                 if reproduced(c, rr):
                     kf = match_known(known, pid, h, c["label"], rr)
